@@ -9,6 +9,10 @@ Decided:
   MPT-C20b    read_toc returns Ok only through the footer decode, the toc_len equality and the true edge of
               hash_matches, then verify_toc_prefix and Toc::decode; open_locked evaluates toc.verify_checksum();
               load_memories_track / load_logic_mesh compare blake3(buf) with the manifest checksum before deserialising.
+  COVER-C20c  a record checksum must cover every field its reader acts on. For the embedded WAL: scan_records decides
+              replay from the record's `sequence` (records_after compares it with header.wal_sequence), so the digest
+              written by write_record must depend on `sequence` as well as on the payload. If it covers the payload only, a
+              flipped sequence byte of an already checkpointed record is undetectable and a writable open replays it.
   INFO        table of stored checksum fields that no code compares (index manifests) — reported in the evidence,
               not a verdict: index corruption changes search results, not stored content.
 Not decided: detection of every single-byte corruption (values); index manifests' checksums."""
@@ -28,7 +32,41 @@ def _checksum_cmp(fn, owner, field):
     return out
 
 
+def wal_record_cover(ctx, F):
+    ctx.rule('COVER-C20c', 'the WAL record digest depends on every header field scan_records acts on (sequence, length)')
+    wr = ctx.need('COVER-C20c', 'EmbeddedWal::write_record')
+    rd = ctx.need('COVER-C20c', 'EmbeddedWal::scan_records')
+    if wr is None or rd is None:
+        return
+    ctx.touch(wr, len(wr.blocks))
+    ctx.touch(rd, len(rd.blocks))
+    hs = [c for c in wr.calls() if c.is_(('blake3::hash', 'Hasher::update', 'blake3::Hasher::update')) or (c.name in ('hash', 'update') and 'blake3' in (c.callee or ''))]
+    if not hs:
+        ctx.lost('COVER-C20c', 'write_record: digest computation not found')
+        return
+    args = {l.get('n'): i for i, l in enumerate(wr.r['locals'][:wr.r['argc'] + 1]) if l.get('n')}
+    if 'sequence' not in args or 'payload' not in args:
+        ctx.lost('COVER-C20c', 'write_record: parameters sequence/payload not found (%s)' % sorted(args))
+        return
+    seq_arg, pay_arg = args['sequence'], args['payload']
+    covered = set()
+    for h in hs:
+        sl = lib.slice_back(wr, h.args[-1:], through_calls=True, at=(h.bb, None))
+        covered |= set(sl.args)
+    ctx.evaluations += len(hs)
+    # the reader really acts on the sequence (it is returned in the records the replay filter compares)
+    acts = any(c.name in ('from_le_bytes',) for c in rd.calls())
+    if pay_arg not in covered:
+        ctx.lost('COVER-C20c', 'write_record: the digest does not depend on the payload argument (arguments covered: %s)' % sorted(covered))
+    elif seq_arg in covered:
+        ctx.ok('COVER-C20c', wr, 'the record digest covers the sequence and the payload', line=hs[0].line)
+    else:
+        ctx.bad('COVER-C20c', wr, 'the WAL record digest covers the payload only: the `sequence` field that decides whether a record is replayed is unprotected, so a flipped '
+                'sequence byte of a checkpointed record makes a writable open replay it (duplicate frames) without any error', line=hs[0].line, sink='blake3::hash', detail='wal-sequence-not-in-digest')
+
+
 def run(ctx):
+    wal_record_cover(ctx, ctx.facts())
     ctx.rule('CHECK-C20a', 'Frame.checksum is compared with blake3(payload) on the serving path and by verify(deep); raw payload readers go through it')
     ctx.rule('MPT-C20b', 'read_toc/open/track loaders return Ok only past their checksum comparisons')
     F = ctx.facts()
